@@ -32,7 +32,7 @@ from ..world import World
 PROPERTY = "C12"
 LEVEL = "exploration"
 RULE = (
-    "(1) senders x packets in {2x1, 2x2, 3x1} with packets '<' + tag*len + '>\\n' produced as three chunks; pipe capacity {1, 3, 8}; "
+    "(1) AsyncTCPNetworkClient and the server-side client object of a running AsyncTCPNetworkServer (send_packet from tasks other than the handler's): senders x packets in {2x1, 2x2, 3x1} with packets '<' + tag*len + '>\\n' produced as three chunks; pipe capacity {1, 3, 8}; "
     "the peer drains 1 / 3 / all bytes per step, each step placed at any loop-iteration boundary (busy placements = costed deviations, "
     "bound 3 quick / 5 thorough); (2) raw endpoint, two concurrent send_packet; (3) BFS to fixpoint over the real FairLock with 3 tasks; "
     "(4) two threads on the blocking TCP/UDP clients under the baton scheduler, preemption bound 2; distinct_nontrivial = distinct "
@@ -40,7 +40,7 @@ RULE = (
 )
 ASSUMPTIONS = [
     "the reference decoder splits the wire at '\\n' and requires every frame to be '<', one repeated tag letter of the right length, '>'",
-    "server-side client objects reuse the same lock discipline and are exercised under C15/C17; the async TLS transport is driven directly (props/c12_tls.py: two senders + a parked reader over a leaf that suspends inside send_all)",
+    "the async TLS transport is driven directly (props/c12_tls.py: two senders + a parked reader over a leaf that suspends inside send_all)",
 ]
 BOUNDS = {"quick": "busy-placement bound 3", "thorough": "busy-placement bound 5"}
 
@@ -101,9 +101,40 @@ def run_client(ctx: Ctx, cfg: dict) -> dict:
 
     async def main(loop: Any) -> None:
         backend = AsyncIOBackend()
+        server = None
         if cfg["subject"] == "client":
             subj: Any = AsyncTCPNetworkClient(sock, StreamProtocol(TriSerializer()), backend)
             await subj.wait_connected()
+        elif cfg["subject"] == "srvclient":
+            # the server-side client object of the real AsyncTCPNetworkServer: send_packet from several tasks that are not the handler's
+            from easynetwork.servers.async_tcp import AsyncTCPNetworkServer
+            from easynetwork.servers.handlers import AsyncStreamRequestHandler
+
+            from ..srvrig import RigBackend, quiet_logger
+
+            connected: dict[str, Any] = {}
+
+            class Handler(AsyncStreamRequestHandler):
+                async def on_connection(self, client: Any) -> None:
+                    connected["client"] = client
+
+                async def handle(self, client: Any) -> Any:
+                    while True:
+                        yield
+
+            rb = RigBackend(world)
+            server = AsyncTCPNetworkServer(None, 0, StreamProtocol(TriSerializer()), Handler(), backend=rb, logger=quiet_logger())
+            srv_task = loop.create_task(server.serve_forever())
+            for _ in range(50):
+                if server.is_serving():
+                    break
+                await asyncio.sleep(0)
+            rb.tcp_listener_socks[0].accept_q.append(sock)
+            for _ in range(50):
+                if "client" in connected:
+                    break
+                await asyncio.sleep(0.001)
+            subj = connected["client"]
         else:
             tr = await backend.wrap_stream_socket(sock)
             subj = AsyncStreamEndpoint(tr, StreamProtocol(TriSerializer()), max_recv_size=64)
@@ -121,6 +152,9 @@ def run_client(ctx: Ctx, cfg: dict) -> dict:
         tasks = [loop.create_task(sender(i)) for i in range(len(plan))]
         st["ready"] = True
         await asyncio.wait(tasks)
+        if server is not None:
+            await server.shutdown()
+            await asyncio.wait([srv_task])
         for t in tasks:
             if t.exception() is not None:
                 raise t.exception()
@@ -146,10 +180,10 @@ def oracle_client(cfg: dict, obs: dict) -> str | None:
             elif r == "busy" and cfg["subject"] == "endpoint":
                 pass
             else:
-                return "send-failed" if cfg["subject"] == "client" else "unexpected-result-" + r
+                return "send-failed" if cfg["subject"] != "endpoint" else "unexpected-result-" + r
         if len(obs["results"][i]) != len(s):
             return "sender-did-not-finish"
-    if cfg["subject"] == "client" and collections.Counter(frames) != collections.Counter(p for s in plan for p in s):
+    if cfg["subject"] != "endpoint" and collections.Counter(frames) != collections.Counter(p for s in plan for p in s):
         return "wire-is-not-the-multiset-of-sent-packets"
     if cfg["subject"] == "endpoint":
         # packets whose send raised BusyResourceError may be absent or partially absent? no: a refused send writes nothing
@@ -292,7 +326,7 @@ def run_fairlock(res: JobResult) -> None:
 
 def jobs(tier: str) -> list[dict]:
     out: list[dict] = [{"part": "fairlock", "tier": tier}]
-    for subject in ("client", "endpoint"):
+    for subject in ("client", "endpoint", "srvclient"):
         for scen in SCENARIOS:
             if subject == "endpoint" and scen != "2x1":
                 continue
